@@ -67,6 +67,35 @@ def lib_id(gens, n, fmt="mat"):
     return int(r) if ok else "exc:" + exc_name(r)
 
 
+def graph_label(g, n):
+    A = np.asarray(g.adjacency_matrix)
+    rows = [sum((int(A[a, b]) & 1) << b for b in range(n)) for a in range(n)]
+    return lcorbit.orbit_table(n)[lcorbit.code_of(rows, n)]
+
+
+def sequence_on_object(p, gens, n, label):
+    """Call sequence on ONE class object as returned by the classifier: id(), str(), ==, get_graph(), id()."""
+    from htstabilizer.stabilizer import Stabilizer
+    from htstabilizer.lc_classes import determine_lc_class
+    case = {"kind": "sequence", "n": n, "gens": ws.strings(gens, n)}
+    ok, c = call(lambda: determine_lc_class(Stabilizer(ws.strings(gens, n))))
+    if not ok:
+        return
+    p.evals += 1
+    p.counters["call sequences on one class object"] += 1
+    ok, r = call(lambda: (c.id(), str(c), c == type(c)(c.id()), c.get_graph(), c.id(), c.get_graph()))
+    if not ok:
+        p.violate("class-object-sequence raises n=%d" % n, "id(); str(); ==; get_graph(); id() on the class object of %s raised %s" % (case["gens"], exc_name(r)), case)
+        return
+    i1, _, eq, g1, i2, g2 = r
+    l1, l2 = graph_label(g1, n), graph_label(g2, n)
+    if i1 != i2 or not eq:
+        p.violate("class-object-id-unstable n=%d" % n, "class object of %s reports id %s, then %s (== rebuilt object: %s)" % (case["gens"], i1, i2, eq), case)
+    if l1 != label or l2 != label:
+        p.violate("class-object-graph-wrong-after-id n=%d" % n,
+                  "class object of %s (orbit %d, id %s): get_graph() after id() lies in orbit %d / %d" % (case["gens"], label, i1, l1, l2), case)
+
+
 def _note(p, n, cid, label, gens):
     pairs = p.extra.setdefault("pairs", {})
     k = (n, cid, label)
@@ -90,6 +119,8 @@ def work(task):
                 if label != 0:
                     p.distinct_count += 1
                 _note(p, n, cid, label, gens)
+                if label and rnd.random() < (0.05 if n <= 5 else 0.002):
+                    sequence_on_object(p, gens, n, label)
                 if frac >= 1.0 or rnd.random() < frac:
                     alt = groups.random_presentation([(x, z, rnd.getrandbits(1)) for x, z, s in gens], n, rnd)
                     cid2 = lib_id(alt, n, "str" if rnd.random() < 0.3 else "mat")
@@ -128,6 +159,8 @@ def work(task):
                 if label != 0:
                     p.nontrivial((n, groups.canon_unsigned(m["gens"], n)))
                 _note(p, n, cid, label, m["gens"])
+                if _ < 3:
+                    sequence_on_object(p, m["gens"], n, label)
         if labels and len(p.samples) < 1:
             p.sample({"n": n, "generators": ws.strings(m["gens"], n), "library id": cid, "oracle orbit label": label})
     elif kind == "classes":
@@ -152,10 +185,16 @@ def work(task):
                 p.violate("class-graph n=%d id=%d" % (n, i), "LCClass%d(%d).get_graph() raised %s" % (n, i, exc_name(g)),
                           {"kind": "classes", "n": n})
                 continue
-            A = np.asarray(g.adjacency_matrix)
-            rows = [sum((int(A[a, b]) & 1) << b for b in range(n)) for a in range(n)]
-            reps[(n, i)] = lcorbit.orbit_table(n)[lcorbit.code_of(rows, n)]
+            reps[(n, i)] = graph_label(g, n)
             p.counters["representative graphs"] += 1
+            # the same questions on ONE object, in the order a user would ask them
+            ok, r2 = call(lambda: (lambda c: (c.id(), str(c), c.get_graph(), c.id(), c.get_graph()))(cls(i)))
+            if not ok:
+                p.violate("class-object-sequence raises n=%d" % n, "LCClass%d(%d): id(); str(); get_graph(); id() raised %s" % (n, i, exc_name(r2)), {"kind": "classes", "n": n})
+            elif (r2[0], r2[3]) != (i, i) or graph_label(r2[2], n) != reps[(n, i)] or graph_label(r2[4], n) != reps[(n, i)]:
+                p.violate("class-object-changes-after-id n=%d id=%d" % (n, i),
+                          "LCClass%d(%d): a fresh object's get_graph() lies in orbit %d, but after id() the same object reports ids %s/%s and graphs in orbits %d/%d"
+                          % (n, i, reps[(n, i)], r2[0], r2[3], graph_label(r2[2], n), graph_label(r2[4], n)), {"kind": "classes", "n": n})
     return p
 
 
@@ -222,6 +261,11 @@ def replay(cj):
         same = lcorbit.orbit_label(a, n) == lcorbit.orbit_label(b, n)
         if (ia == ib) != same or not isinstance(ia, int) or not isinstance(ib, int):
             vs.append({"key": "class-id-relation", "what": "ids %s / %s, LC-equivalent: %s" % (ia, ib, same)})
+    elif cj["kind"] == "sequence":
+        p = Partial()
+        a = [parse_pauli(s) for s in cj["gens"]]
+        sequence_on_object(p, a, n, lcorbit.orbit_label(a, n))
+        vs = p.violations
     elif cj["kind"] == "single":
         a = [parse_pauli(s) for s in cj["gens"]]
         ia = lib_id(a, n)
